@@ -100,6 +100,15 @@ Proof.
   apply fold_apply1_ext. apply seteq_sym. apply apply1_no_change.
 Qed.
 
+(* for a disjoint incoming change the 'gone' half can as well be computed removal-last:
+   (eg - n) | g  =  (eg | g) - n ; the two ways of writing _merge_tags differ only on overlapping sets *)
+Lemma merge_gone_forms ex ch : disjoint ch ->
+  seteq (snd (merge_tags ex ch)) (sunion (sdiff (snd ex) (fst ch)) (snd ch)).
+Proof.
+  intros D x. specialize (D x). unfold merge_tags; simpl. rewrite smem_diff, !smem_union, smem_diff.
+  destruct (smem x (snd ex)), (smem x (fst ch)), (smem x (snd ch)); simpl in *; congruence.
+Qed.
+
 (* ... and it is false without disjointness *)
 Lemma merge_needs_disjoint : exists B ex ch,
   ~ seteq (apply1 (apply1 B ex) ch) (apply1 B (merge_tags ex ch)).
@@ -620,7 +629,8 @@ Theorem model_meets_spec : forall i, spec_okb i (model i) = true.
 Proof.
   intros [a h]. unfold spec_okb, current_okb, observed_okb, wf_obs, model; simpl.
   apply andb_true_iff; split.
-  - destruct (nn_from false h) eqn:En; [|reflexivity]. simpl.
+  - unfold wf_cur; simpl. destruct (nn_from false h) eqn:En; [|reflexivity].
+    simpl. destruct (disj_hist h); [|reflexivity]. destruct (forallb disjointb (chain a)); [|reflexivity]. simpl.
     apply lseteqb_spec. apply current_refines. exact En.
   - destruct (wf_from false false h && forallb disjointb (chain a)) eqn:Ew; [|reflexivity]. simpl.
     apply andb_true_iff in Ew as [Hw Hd].
